@@ -1,13 +1,45 @@
-PROP = {
-    "suites": ["c01"],
-    "replay_suite": "c01",
-    "clauses": {1: "a request was served on behalf of a client without a valid credential of the method registered for that client and endpoint",
-                2: "a request carrying a genuinely valid credential of the registered method was refused",
-                3: "a refused request was not answered invalid_client, or carried an artifact, or was preceded by a storage write / left the store changed"},
-    "title": "Client authentication is sound on every client-authenticated endpoint",
-    "text": "Theorems over the hand-written model of clientutil.Authenticated (Model/Authn.v: extractID, per-endpoint method and algorithm selection, the seven methods, areClaimsValid, JWKS by value / jwks_uri, certificate matching; symbolic crypto) against an independently written declarative specification valid_credential (Model/AuthnSpec.v): authn_sound (for all configurations, contexts, client lists and request records an authenticated client is the registered one, is the only client the request names, and the request carries a credential of the method registered for (client, endpoint) verifying under the registered material with a permitted algorithm), authn_complete (such a request is accepted), authn_needs_identification, valid_credential_decided (the executable form of the specification decides it), unauthenticated_inert (for the eight handler programs of Model/Token.v and Model/Authorize.v, every store: an unauthenticated request gets an error, the store is unchanged, only client reads are performed, and the error is invalid_client once the handler's pre-authentication guards pass), authn_none_is_unauthenticated (the two layers fit). Correspondence: the full single-deviation catalogue (7 methods x 9 entry points x every applicable credential deviation, per-endpoint overrides, JWKS by value and by jwks_uri, the anonymous jwt-bearer exception) is sent over HTTP to the real provider, one fresh provider and seeded storage per request; the model's verdict and jwks_uri-fetch prediction are compared with the observation and the specification's decision procedure is evaluated on the observed request (monitor).",
-    "note": "authn_sound assumes the client's id is not the empty string (for the empty id go-jose skips the iss/sub comparison). authn_complete assumes the registration does not make the key reference of the request ambiguous (two JWKs with the kid/alg the assertion names or with the certificate's thumbprint: the code takes the first). The jwt-bearer grant handler is not in Model/Token.v; its authentication step is the same Authenticated call and is covered by correspondence (including the anonymous exception), not by unauthenticated_inert. Time comparisons inside assertions are exercised at least 5 s away from their boundaries. SHA-1 and SHA-256 certificate thumbprints are one field in the model; the harness uses x5t#S256. RSA algorithms are in the model but not generated (slow key generation); HS384/HS512 are not modelled (WithSecretJWTSignatureAlgs cannot be used).",
-    "technique": "Coq proof (decision-rule soundness/completeness against a declarative specification + symbolic execution of handler programs) tied to the code by differential correspondence on an exhaustive deviation catalogue",
-    "design_ref": "DESIGN.md section 6, C01",
-    "assumptions": ["bcrypt, HMAC, ECDSA signatures and certificate thumbprints are ideal: a check succeeds only for the very secret / key / certificate"],
-}
+PROP = {'suites': ['c01'],
+ 'replay_suite': 'c01',
+ 'clauses': {1: 'a request was served on behalf of a client without a valid credential of the method registered for that client and endpoint',
+             2: 'a request carrying a genuinely valid credential of the registered method was refused',
+             3: 'a refused request was not answered invalid_client, or carried an artifact, or was preceded by a storage write / left the store changed'},
+ 'title': 'Client authentication is sound on every client-authenticated endpoint',
+ 'text': 'Theorems over the hand-written model of clientutil.Authenticated (Model/Authn.v: extractID with its three answers none / one id / conflict, per-endpoint method and algorithm selection, the '
+         'seven methods, areClaimsValid, JWKS by value / jwks_uri, certificate matching; symbolic crypto) against an independently written declarative specification valid_credential '
+         '(Model/AuthnSpec.v): authn_sound (for all configurations, contexts, client lists and request records an authenticated client is the registered one, is the only client the request names, '
+         'and the request carries a credential of the method registered for (client, endpoint) verifying under the registered material with a permitted algorithm), authn_complete (such a request is '
+         'accepted), authn_needs_identification, valid_credential_decided, unauthenticated_inert (eight handler programs of Model/Token.v and Model/Authorize.v: an unauthenticated request gets an '
+         'error, invalid_client once the earlier guards pass, the store is unchanged, only client reads are performed), authn_none_is_unauthenticated. PLACEMENT (Model/AuthnWire.v): a wire request '
+         'carries every form-carried credential member (client_id, client_secret, client_assertion, client_assertion_type) with its value in the body and its value in the query string of the request '
+         "URI; the code's reader table is PostFormValue (body only) for all four; entry_outcome is what each of the nine entry points (/token for five grants, /par, /bc-authorize, /introspect, "
+         '/revoke) makes of a wire request (act for a client / act for the anonymous client / refuse). query_string_ignored (requests differing in the query string only get the same outcome, every '
+         'entry point), authn_wire_sound / authn_wire_complete (the credential that counts is the one in the places it must be in), credential_placement (when a client is served the members of its '
+         "method's credential sit where that method reads them), secret_post_query_ignored and misplaced_secret_refused (no client_secret in the body: no client_secret_post client is authenticated "
+         'whatever the query string and the Authorization header carry; refused when the body names such a client), secret_basic_needs_header, assertion_query_ignored. IDENTIFICATION: '
+         'extract_id_unidentified (the not-identified answer means exactly: no body client_id, no Basic user, no client_assertion), extract_id_conflict, anonymous_only_without_identification (an '
+         'entry point goes the anonymous way IFF it is the jwt-bearer grant, client authentication is not required and the request names nobody at all), id_conflict_refused (two places naming '
+         'different clients: refused at every entry point, by the jwt-bearer grant whether or not it requires authentication, no jwks_uri fetch), refused_outcome_inert (a refused outcome is inert at '
+         'all nine entry points; for jwt-bearer the handler is the head of generateJWTBearerGrant, Model/AuthnEntry.v, followed by an arbitrary rest). Correspondence: the single-deviation catalogue '
+         '(7 methods x 9 entry points x every applicable credential deviation, per-endpoint overrides, JWKS by value and by jwks_uri, the anonymous jwt-bearer exception) now has two more dimensions: '
+         'WHERE each member is placed (body / query string only / both equal / both different, for each of the four form members; Basic header vs form for the two secret methods; a query string '
+         'repeating everything with other values) and IDENTIFICATION IN SEVERAL PLACES (14 patterns of Basic user / body client_id / assertion issuer agreeing or disagreeing x right / wrong / absent '
+         'proof, at every entry point, for jwt-bearer with authentication required and not required, plus query-only and empty-user identification on the anonymous path). Every case is one HTTP '
+         "request to a fresh provider over freshly seeded storage; the model's verdict (entry_outcome) and jwks_uri-fetch prediction are compared with the observation and the specification's "
+         'decision procedure is evaluated on the body view of the request actually sent (monitor). In the system model (Token.jwt_bearer_grant) the exception has its own theorem, '
+         'jwt_bearer_anonymous_only_when_allowed: tokens without an authenticated client imply the request carries no client identification and WithJWTBearerGrantClientAuthnRequired is off (the '
+         'grant written belongs to the anonymous client: empty client id, no refresh token); an unauthenticated request that names somebody, or meets a server requiring client authentication, is '
+         'refused with invalid_client and is inert.',
+ 'note': "authn_sound assumes the client's id is not the empty string (for the empty id go-jose skips the iss/sub comparison). authn_complete assumes the registration does not make the key reference "
+         "of the request ambiguous (two JWKs with the kid/alg the assertion names or with the certificate's thumbprint: the code takes the first). Placement: a member is modelled with at most one "
+         "value in the body and one in the query string (repeated parameters inside one place are not generated; net/http takes the first); 'present and empty' and 'absent' are the same for the code "
+         'and are one value in the harness. Identification that travels in the query string only is, like every query member, ignored: with anonymous jwt-bearer use allowed such a request takes the '
+         'anonymous path (it names nobody in any place the server reads) - generated and checked. A Basic header with an empty user names nobody (the code tests the user for emptiness); an assertion '
+         'with an empty iss does name a client (the empty one) and conflicts with any other id. The full jwt-bearer grant handler is not in Model/Token.v; its head (authenticate, then refuse or go '
+         'on with the client / the anonymous client) is Model/AuthnEntry.v and the statements about refused requests hold for an arbitrary rest; what the anonymous client may then do is outside C01. '
+         'The request URL audience of an assertion is issuer + RequestURI including the query string (harness renders it so). Time comparisons inside assertions are exercised at least 5 s away from '
+         'their boundaries. SHA-1 and SHA-256 certificate thumbprints are one field in the model; the harness uses x5t#S256. RSA algorithms are in the model but not generated (slow key generation); '
+         'HS384/HS512 are not modelled (WithSecretJWTSignatureAlgs cannot be used).',
+ 'technique': 'Coq proof (decision-rule soundness/completeness against a declarative specification + symbolic execution of handler programs) tied to the code by differential correspondence on an '
+              'exhaustive deviation catalogue',
+ 'design_ref': 'DESIGN.md section 6, C01',
+ 'assumptions': ['bcrypt, HMAC, ECDSA signatures and certificate thumbprints are ideal: a check succeeds only for the very secret / key / certificate']}
